@@ -620,7 +620,8 @@ fn read_code<C: CodeVisitor>(
 
 						if low > high { bail!("in tableswitch `low` must be lower or equal to `high`, it's low={low:?} and high={high:?}"); }
 
-						let n = (high - low + 1) as u32; // always >= 1
+						// Computed in i64, as `high - low + 1` can be as large as 2^32.
+						let n = high as i64 - low as i64 + 1; // always >= 1
 
 						for _ in 0..n {
 							labels.create(r.read_i32_as_branch_target_label(opcode_pos)?)?;
@@ -1030,9 +1031,11 @@ fn read_code<C: CodeVisitor>(
 
 				if low > high { bail!("in tableswitch `low` must be lower or equal to `high`, it's low={low:?} and high={high:?}"); }
 
-				let n = (high - low + 1) as u32; // always >= 1
+				// Computed in i64, as `high - low + 1` can be as large as 2^32.
+				let n = high as i64 - low as i64 + 1; // always >= 1
 
-				let mut table = Vec::with_capacity(n as usize);
+				// Every entry takes four bytes of the bytecode.
+				let mut table = Vec::with_capacity(n.min(bytecode.len() as i64 / 4) as usize);
 				for _ in 0..n {
 					let entry = labels.try_get(r.read_i32_as_branch_target_label(opcode_pos)?)?;
 					table.push(entry);
